@@ -116,7 +116,11 @@ var solvers = []solver{
 }
 
 func runSolver(s solver, file string, timeout time.Duration) (status, output string, secs float64) {
-	ctx, cancel := context.WithTimeout(context.Background(), timeout+2*time.Second)
+	return runSolverCtx(context.Background(), s, file, timeout)
+}
+
+func runSolverCtx(parent context.Context, s solver, file string, timeout time.Duration) (status, output string, secs float64) {
+	ctx, cancel := context.WithTimeout(parent, timeout+2*time.Second)
 	defer cancel()
 	args := s.args(int(timeout/time.Millisecond), file)
 	cmd := exec.CommandContext(ctx, args[0], args[1:]...)
@@ -135,6 +139,8 @@ func runSolver(s solver, file string, timeout time.Duration) (status, output str
 		return "sat", output, secs
 	case first == "unknown":
 		return "unknown", output, secs
+	case parent.Err() != nil:
+		return "cancelled", output, secs
 	case strings.Contains(first, "timeout") || ctx.Err() != nil:
 		return "timeout", output, secs
 	}
@@ -170,10 +176,6 @@ func solveOne(ob *Obligation, cfg SolverCfg) {
 		return
 	}
 	ob.File = fname
-	want := "unsat"
-	if ob.Cover {
-		want = "sat"
-	}
 	var total float64
 	var outputs []string
 	if ob.Cover {
@@ -206,33 +208,70 @@ func solveOne(ob *Obligation, cfg SolverCfg) {
 		}
 		return
 	}
-	for _, s := range solvers {
-		st, out, secs := runSolver(s, fname, cfg.Timeout)
+	finish := func(sv solver, st, out string) {
+		ob.Status, ob.Backend, ob.Seconds = st, sv.name, total
+		ob.Output = strings.Join(outputs, "\n")
+		if st == "sat" {
+			// re-run with model production for the counterexample
+			mfile := strings.TrimSuffix(fname, ".smt2") + ".model.smt2"
+			os.WriteFile(mfile, []byte(ob.smtText(true)), 0o644)
+			_, mout, _ := runSolver(sv, mfile, cfg.Timeout)
+			ob.Model = mout
+		}
+		if !cfg.KeepAll && ob.Status == "unsat" {
+			os.Remove(fname)
+			ob.File = ""
+		}
+	}
+	// stage 1: the usual winner alone, briefly
+	quick := 2 * time.Second
+	if cfg.Timeout < quick {
+		quick = cfg.Timeout
+	}
+	{
+		st, out, secs := runSolver(solvers[0], fname, quick)
 		total += secs
-		outputs = append(outputs, fmt.Sprintf("[%s: %s in %.2fs] %s", s.name, st, secs, firstLines(out, 3)))
+		outputs = append(outputs, fmt.Sprintf("[%s: %s in %.2fs] %s", solvers[0].name, st, secs, firstLines(out, 3)))
 		if st == "unsat" || st == "sat" {
-			ob.Status, ob.Backend, ob.Seconds = st, s.name, total
-			ob.Output = strings.Join(outputs, "\n")
-			if st == "sat" && !ob.Cover {
-				// re-run with model production for the counterexample
-				mfile := strings.TrimSuffix(fname, ".smt2") + ".model.smt2"
-				os.WriteFile(mfile, []byte(ob.smtText(true)), 0o644)
-				_, mout, _ := runSolver(s, mfile, cfg.Timeout)
-				ob.Model = mout
-			}
-			if ob.Cover && st == "unsat" {
-				ob.Status = "vacuous"
-			} else if ob.Cover {
-				ob.Status = "unsat" // cover satisfied: reported as discharged
-				ob.Backend = s.name + " (sat, as required)"
-			}
-			if !cfg.KeepAll && ob.Status == "unsat" {
-				os.Remove(fname)
-				ob.File = ""
-			}
+			finish(solvers[0], st, out)
 			return
 		}
-		_ = want
+	}
+	// stage 2: race all back ends with the full timeout; first definite answer wins
+	type res struct {
+		sv   solver
+		st   string
+		out  string
+		secs float64
+	}
+	ch := make(chan res, len(solvers))
+	ctx, cancel := context.WithCancel(context.Background())
+	for _, sv := range solvers {
+		go func(sv solver) {
+			st, out, secs := runSolverCtx(ctx, sv, fname, cfg.Timeout)
+			ch <- res{sv, st, out, secs}
+		}(sv)
+	}
+	var winner *res
+	maxSecs := 0.0
+	for range solvers {
+		r := <-ch
+		if r.secs > maxSecs {
+			maxSecs = r.secs
+		}
+		outputs = append(outputs, fmt.Sprintf("[%s: %s in %.2fs] %s", r.sv.name, r.st, r.secs, firstLines(r.out, 3)))
+		if winner == nil && (r.st == "unsat" || r.st == "sat") {
+			rr := r
+			winner = &rr
+			cancel()
+		}
+	}
+	cancel()
+	total += maxSecs
+	if winner != nil {
+		total = total - maxSecs + winner.secs
+		finish(winner.sv, winner.st, winner.out)
+		return
 	}
 	ob.Status = "unknown"
 	ob.Seconds = total
